@@ -2706,6 +2706,10 @@ static void
 hwloc__xml_export_memattrs(hwloc__xml_export_state_t state, hwloc_topology_t topology)
 {
   unsigned id;
+
+  /* drop targets and initiators whose objects were removed (e.g. by a restrict) since the last refresh */
+  hwloc_internal_memattrs_refresh(topology);
+
   for(id=0; id<topology->nr_memattrs; id++) {
     struct hwloc_internal_memattr_s *imattr;
     struct hwloc__xml_export_state_s mstate;
